@@ -13,7 +13,7 @@ package store
 //@   inline
 
 // The abstract content of a dense store: the map index -> weight.
-//@ fun DView(s *DenseStore, k int) real := (s.offset <= k && k < s.offset + len(s.bins)) ? s.bins[k - s.offset] : 0.0
+//@ vfun DView(s *DenseStore, k int) real := (s.offset <= k && k < s.offset + len(s.bins)) ? s.bins[k - s.offset] : 0.0
 //@ fun DSum(s *DenseStore) real := ASum(contents(s.bins), 0, len(s.bins))
 
 // Core invariant (holds also in the middle of a range extension):
@@ -26,7 +26,7 @@ package store
 //@ pred DCore(s *DenseStore) := DRanges(s) && s.count == DSum(s) && s.count >= 0.0 && DNonneg(s) && (s.minIndex <= s.maxIndex ==> DWindowIn(s)) && DZeroOutside(s)
 // Full invariant between public operations: empty = no storage in use and sentinel window; non-empty = tight window.
 //@ pred DEmptyState(s *DenseStore) := s.count == 0.0 && len(s.bins) == 0 && s.minIndex == 2147483647 && s.maxIndex == 0 - 2147483648
-//@ pred DTight(s *DenseStore) := s.minIndex <= s.maxIndex && s.bins[s.minIndex - s.offset] > 0.0 && s.bins[s.maxIndex - s.offset] > 0.0
+//@ pred DTight(s *DenseStore) := s.minIndex <= s.maxIndex && DView(s, s.minIndex) > 0.0 && DView(s, s.maxIndex) > 0.0
 //@ pred DInv(s *DenseStore) := DCore(s) && (s.count == 0.0 ==> DEmptyState(s)) && (s.count > 0.0 ==> DTight(s))
 
 //@ func NewDenseStore
@@ -139,6 +139,7 @@ package store
 //@   requires DInv(s) && in32(index)
 //@   ensures DInv(s) && s.count == old(s.count) + 1.0
 //@   ensures view: forall k int :: DView(s, k) == old(DView(s, k)) + (k == index ? 1.0 : 0.0)
+//@   ensures alias: arr(s.bins) == old(arr(s.bins)) || fresh(arr(s.bins))
 //@   modifies s, arr(s.bins)
 
 //@ func Bin.Index
@@ -150,6 +151,7 @@ package store
 //@   requires DInv(s) && in32(bin.index) && bin.count >= 0.0
 //@   ensures DInv(s) && s.count == old(s.count) + bin.count
 //@   ensures view: forall k int :: DView(s, k) == old(DView(s, k)) + (k == bin.index ? bin.count : 0.0)
+//@   ensures alias: arr(s.bins) == old(arr(s.bins)) || fresh(arr(s.bins))
 //@   modifies s, arr(s.bins)
 
 // Cumulative weight up to and including index k.
@@ -196,16 +198,38 @@ package store
 //@   ghost stopped bool := false
 //@   callback f params index, count
 //@   callback f results stop
-//@   callback f requires !stopped && !visited[index] && count == DView(s, index) && count > 0.0
+//@   callback f requires !stopped && !visited[index] && count == DView(s, index) && count > 0.0 && in32(index)
 //@   callback f preserves footprint(s)
 //@   callback f ghost visited := update(visited, index, true)
 //@   callback f ghost stopped := stop
 //@   ensures complete: stopped || (forall k int :: DView(s, k) > 0.0 ==> visited[k])
 //@   ensures sound: forall k int :: visited[k] ==> DView(s, k) > 0.0
-//@   ensures DInv(s) && (forall k int :: DView(s, k) == old(DView(s, k)))
+//@   ensures DInv(s) && s.count == old(s.count) && (forall k int :: DView(s, k) == old(DView(s, k)))
 //@   modifies everything()
-//@   loop 1 invariant DInv(s) && !stopped && s.minIndex <= idx && (s.minIndex <= s.maxIndex ==> idx <= s.maxIndex + 1)
+//@   loop 1 invariant DInv(s) && s.count == old(s.count) && !stopped && s.minIndex <= idx && (s.minIndex <= s.maxIndex ==> idx <= s.maxIndex + 1)
 //@   loop 1 invariant forall k int :: visited[k] <==> (s.minIndex <= k && k < idx && DView(s, k) > 0.0)
 //@   loop 1 invariant forall k int :: DView(s, k) == old(DView(s, k))
 
 //@ footprint DenseStore(s) := s, arr(s.bins)
+
+// MergeWith: the receiver's content becomes the index-wise sum; the argument's content is unchanged.
+//@ func DenseStore.MergeWith
+//@   serves C04 C02
+//@   requires DInv(s) && SInv(other) && disjoint(s, other)
+//@   ensures DInv(s) && SInv(other)
+//@   ensures view: forall k int :: DView(s, k) == old(DView(s, k)) + old(SView(other, k)) using STotIsTot(other), TotPos(SViewArr(other))
+//@   ensures total: s.count == old(s.count) + old(STot(other)) using STotIsTot(other), DTotIsTot(s), TotAdd(old(DViewArr(s)), SViewArr(other), DViewArr(s)), SegmentTot(old(contents(s.bins)), 0, old(len(s.bins)), old(DViewArr(s)), old(s.offset))
+//@   ensures arg: STot(other) == old(STot(other)) && (forall k int :: SView(other, k) == old(SView(other, k)))
+//@   ensures alias: arr(s.bins) == old(arr(s.bins)) || fresh(arr(s.bins))
+//@   ensures stable: footprintStable(other)
+//@   modifies s, arr(s.bins), footprint(other)
+//@   foreach 1 invariant !stopped && DInv(s) && SInv(other) && disjoint(s, other) && (arr(s.bins) == old(arr(s.bins)) || fresh(arr(s.bins))) && footprintStable(other)
+//@   foreach 1 invariant forall k int :: DView(s, k) == old(DView(s, k)) + (visited[k] ? SView(other, k) : 0.0)
+//@   foreach 1 invariant STot(other) == old(STot(other)) && (forall k int :: SView(other, k) == old(SView(other, k)))
+//@   loop 1 invariant DInv(o) && o == as(other, *DenseStore) && o.minIndex <= idx && idx <= o.maxIndex + 1 && s.minIndex == min(old(s.minIndex), o.minIndex) && s.maxIndex == max(old(s.maxIndex), o.maxIndex)
+//@   loop 1 invariant DRanges(s) && DNonneg(s) && DWindowIn(s) && DZeroOutside(s) && s.count == old(s.count) && (arr(s.bins) == old(arr(s.bins)) || fresh(arr(s.bins))) && arr(s.bins) != arr(o.bins)
+//@   loop 1 invariant DSum(s) == old(s.count) + ASum(contents(o.bins), o.minIndex - o.offset, idx - o.offset)
+//@   loop 1 invariant forall k int :: DView(s, k) == old(DView(s, k)) + ((o.minIndex <= k && k < idx) ? DView(o, k) : 0.0)
+//@   loop 1 invariant o.count == old(o.count) && (forall k int :: DView(o, k) == old(DView(o, k)))
+//@   hint ASumUpdate(contents(s.bins), 0, len(s.bins), idx - s.offset, s.bins[idx - s.offset] + o.bins[idx - o.offset]), ASumStep(contents(o.bins), o.minIndex - o.offset, idx - o.offset + 1), ASumEmpty(contents(o.bins), o.minIndex - o.offset, o.minIndex - o.offset)
+//@   hint ASumWindow(contents(o.bins), 0, len(o.bins), o.minIndex - o.offset, o.maxIndex - o.offset)
